@@ -84,6 +84,17 @@ def c_copy(v):
     return onp.array(v, order="C", copy=True) if isinstance(v, onp.ndarray) else v
 
 
+def c_reorder(v):
+    """The same value with every dict rebuilt in the reverse insertion order (equal as a Python value)."""
+    if isinstance(v, dict):
+        return {k: c_reorder(v[k]) for k in reversed(list(v))}
+    if isinstance(v, list):
+        return [c_reorder(t) for t in v]
+    if isinstance(v, tuple):
+        return tuple(c_reorder(t) for t in v)
+    return v
+
+
 def adjoint_ok(f, x, g, vj):
     """<g, f(b) - f(0)> == <vjp(g), b> for every standard basis vector b of x's space (f affine)."""
     vs = vspace(x)
@@ -254,7 +265,9 @@ def main():
             ok = bool(onp.all(g1 == g2)) and bool(onp.all(g1 == w)) and veq(unflatten(fx), x) \
                 and bool(onp.all(flatten(unflatten(fx))[0] == fx)) \
                 and bool(onp.all(flatten(vspace(x).add(x, y))[0] == fx + flatten(y)[0])) \
-                and bool(onp.all(flatten(c_copy(x))[0] == fx)) and veq(unflatten(fx), c_copy(x))
+                and bool(onp.all(flatten(c_copy(x))[0] == fx)) and veq(unflatten(fx), c_copy(x)) \
+                and bool(onp.all(flatten(c_reorder(x))[0] == fx)) and veq(unflatten(flatten(c_reorder(y))[0]), y) \
+                and bool(onp.all(flatten(vspace(x).add(x, c_reorder(y)))[0] == fx + flatten(c_reorder(y))[0]))
             if not ok:
                 out["oracle_bad"].append({"oracle": "flatten", "x": enc(x), "site": {"oracle": "flatten"}})
         except Exception as ex:
@@ -281,6 +294,27 @@ def main():
             "first of items": lambda d: anp.sum(list(d.items())[0][1]) * 5.0,
             "sorted(d, key=str)": lambda d: sum(w * anp.sum(d[k]) for w, k in zip(wts, sorted(d, key=str))),
         }
+        if not mixed:
+            # flattening is a map of the VALUE: equal dicts assembled in different key orders flatten to the same vector,
+            # and the unflatten of one of them inverts the flatten of the other
+            out["oracle_n"] += 1
+            out["oracle_keys"].append("flatten-key-order:%s" % (keys,))
+            dist("oracle:flatten-key-order")
+            try:
+                ds = {k: d0[k] for k in sorted(d0)}
+                f0, un0 = flatten(d0)
+                fs, uns = flatten(ds)
+                back = un0(fs)
+                gfl = flatten(grad(lambda d: anp.sum(flatten(d)[0] * anp.arange(1.0, f0.size + 1.0)))(d0))[0]
+                ok = bool(onp.all(f0 == fs)) and all(onp.all(back[k] == ds[k]) for k in ds) \
+                    and bool(onp.all(gfl == onp.arange(1.0, f0.size + 1.0))) \
+                    and bool(onp.all(flatten(vspace(d0).add(d0, ds))[0] == f0 + fs))
+                if not ok:
+                    out["oracle_bad"].append({"oracle": "flatten-key-order", "keys": [str(k) for k in keys], "flat_insertion": f0.tolist(),
+                                              "flat_sorted": fs.tolist(), "site": {"oracle": "flatten-key-order"}})
+            except Exception as ex:
+                out["oracle_bad"].append({"oracle": "flatten-key-order", "keys": [str(k) for k in keys], "error": repr(ex),
+                                          "site": {"oracle": "flatten-key-order"}})
         for pname, fd in progs_d.items():
             out["oracle_n"] += 1
             out["oracle_keys"].append("dict-order:%s:%s" % (pname, keys))
